@@ -483,6 +483,10 @@ func (c *tunnelChannel) recvLoop() {
 		}
 		supportedRevisions := c.tunnelOpts.supportedRevisions()
 		var supported bool
+		if len(settings.Settings.SupportedProtocolRevisions) == 0 {
+			// an empty list means the server supports only revision zero
+			supported = true
+		}
 		for _, rev := range settings.Settings.SupportedProtocolRevisions {
 			switch {
 			case inSlice(rev, supportedRevisions):
